@@ -88,22 +88,27 @@ Qed.
 (* the search loop, with the start of the reported match *)
 Lemma try_from_start : forall fuel j s, j + fuel <= n + 1 -> wf0 s ->
   match try_from prog input fuel j (fun _ => true) s with
-  | MTrue s' => exists k q, j <= k < j + fuel /\ In q (Rop input (p_case prog) (p_multi prog) (p_op prog) k) /\ q <= n
+  | MTrue s' => exists k q rest, j <= k < j + fuel
+                            /\ (forall m, j <= m < k -> Rop input (p_case prog) (p_multi prog) (p_op prog) m = [])
+                            /\ Rop input (p_case prog) (p_multi prog) (p_op prog) k = q :: rest /\ q <= n
                             /\ get_pstart s' 0 = Some k /\ get_pend s' 0 = Some q /\ wf0 s'
-  | MFalse s' => wf0 s'
+  | MFalse s' => (forall m, j <= m < j + fuel -> Rop input (p_case prog) (p_multi prog) (p_op prog) m = []) /\ wf0 s'
   | MOut | MPanic _ => False
   end.
 Proof.
-  induction fuel as [|f IH]; intros j s Hj Ws; cbn [try_from]; [exact Ws|].
+  induction fuel as [|f IH]; intros j s Hj Ws; cbn [try_from]; [split; [intros m Hm; lia|exact Ws]|].
   pose proof (match_at_spec prog input Hsimple j s ltac:(lia) Ws) as M.
   pose proof (match_at_start j s) as St.
   destruct (match_at prog input j s) as [s'|s'| |k]; try contradiction.
   - destruct M as (q & rest & E & Hq & Hp & Ws').
-    exists j, q. split; [lia|]. split; [rewrite E; left; reflexivity|]. split; [exact Hq|].
+    exists j, q, rest. split; [lia|]. split; [intros m Hm; lia|]. split; [exact E|]. split; [exact Hq|].
     split; [apply St; [apply Ws|reflexivity]|]. split; [exact Hp|exact Ws'].
-  - destruct M as [_ Ws']. specialize (IH (S j) s' ltac:(lia) Ws').
-    destruct (try_from prog input f (S j) (fun _ => true) s') as [s''|s''| |k]; try contradiction; [|exact IH].
-    destruct IH as (k & q & Hk & Rest). exists k, q. split; [lia|exact Rest].
+  - destruct M as [E0 Ws']. specialize (IH (S j) s' ltac:(lia) Ws').
+    destruct (try_from prog input f (S j) (fun _ => true) s') as [s''|s''| |k]; try contradiction.
+    + destruct IH as (k & q & rest & Hk & Hb & Rest). exists k, q, rest. split; [lia|]. split; [|exact Rest].
+      intros m Hm. destruct (Nat.eq_dec m j) as [->|]; [exact E0|apply Hb; lia].
+    + destruct IH as [Hb Ws'']. split; [|exact Ws''].
+      intros m Hm. destruct (Nat.eq_dec m j) as [->|]; [exact E0|apply Hb; lia].
 Qed.
 
 Lemma wf0_cs0' s : length (sb s) = length (eb s) -> wf0 (with_cs cs0 s).
@@ -120,9 +125,10 @@ Proof. intros (_ & _ & H). exact H. Qed.
 
 Theorem matches_span i s : i <= n -> minv s ->
   match matches prog input i s with
-  | MTrue s' => exists k q, i <= k /\ In q (Rop input (p_case prog) (p_multi prog) (p_op prog) k) /\ q <= n
+  | MTrue s' => exists k q rest, i <= k /\ (forall m, i <= m < k -> Rop input (p_case prog) (p_multi prog) (p_op prog) m = [])
+                            /\ Rop input (p_case prog) (p_multi prog) (p_op prog) k = q :: rest /\ q <= n
                             /\ get_pstart s' 0 = Some k /\ get_pend s' 0 = Some q /\ minv s'
-  | MFalse s' => minv s'
+  | MFalse s' => (forall m, i <= m <= n -> Rop input (p_case prog) (p_multi prog) (p_op prog) m = []) /\ minv s'
   | MOut | MPanic _ => False
   end.
 Proof.
@@ -133,8 +139,10 @@ Proof.
   cbn [check_pre].
   pose proof (try_from_start (n + 1 - i) i _ ltac:(lia) (wf0_cs0' s Hinv)) as T.
   destruct (try_from prog input (n + 1 - i) i (fun _ => true) (with_cs cs0 s)) as [s'|s'| |k]; try contradiction.
-  - destruct T as (k & q & Hk & Hin & Hq & P1 & P2 & W). exists k, q. repeat split; auto; try lia. apply wf0_minv. exact W.
-  - apply wf0_minv. exact T.
+  - destruct T as (k & q & rest & Hk & Hb & Hin & Hq & P1 & P2 & W). exists k, q, rest.
+    split; [lia|]. split; [exact Hb|]. split; [exact Hin|]. split; [exact Hq|]. split; [exact P1|]. split; [exact P2|].
+    apply wf0_minv. exact W.
+  - destruct T as [Hb W]. split; [intros m Hm; apply Hb; lia|apply wf0_minv; exact W].
 Qed.
 
 (* a program that does not match the empty string reports no empty match *)
@@ -144,8 +152,9 @@ Hypothesis Hnonnull : forall s', matches prog [] 0 st0 <> MTrue s'.
 Theorem fragment_good_step : good_step_on (matches prog input) input minv.
 Proof.
   intros pos s Hpos Hinv. pose proof (matches_span pos s Hpos Hinv) as M.
-  destruct (matches prog input pos s) as [s'|s'| |k0] eqn:Em; auto.
-  destruct M as (k & q & Hk & Hin & Hq & P1 & P2 & Hinv'). split; [|exact Hinv'].
+  destruct (matches prog input pos s) as [s'|s'| |k0] eqn:Em; [|exact (proj2 M)|exact M|exact M].
+  destruct M as (k & q & rest & Hk & _ & Hin0 & Hq & P1 & P2 & Hinv'). split; [|exact Hinv'].
+  assert (Hin : In q (Rop input (p_case prog) (p_multi prog) (p_op prog) k)) by (rewrite Hin0; left; reflexivity).
   exists k, q. repeat split; auto.
   (* not empty *)
   destruct (min_length_sound input (p_case prog) (p_multi prog) (p_hasbackrefs prog) (p_maxparens prog)
